@@ -199,8 +199,9 @@ def main():
         "wall_s": round(wall, 2),
         "violations": len(new),
     }
-    os.makedirs(os.path.join(ROOT, "evidence"), exist_ok=True)
-    json.dump(ev, open(os.path.join(ROOT, "evidence", f"{pid}.json"), "w"), indent=1, default=str)
+    if not os.environ.get("CGV_NO_EVIDENCE"):  # (maintenance tools that run a check against a scratch copy must not overwrite evidence)
+        os.makedirs(os.path.join(ROOT, "evidence"), exist_ok=True)
+        json.dump(ev, open(os.path.join(ROOT, "evidence", f"{pid}.json"), "w"), indent=1, default=str)
 
     for l in lines:
         print(l)
